@@ -2,8 +2,9 @@
    `step fixr fixp s o` is the transcription of one committed-or-rolled-back operation (a
    scim_sync_apply request, an administrator's change of sync_yield_authority, a user's modify);
    states, requests and histories are arbitrary (no size bound anywhere). fixr / fixp select the
-   code before (false) or after (true) /verif/fixes/C50.patch; theorems quantified over them hold
-   for both trees. *)
+   code as it is now (true: with the two guards of /verif/fixes/C50.patch, /repo 7a11b7d) or the
+   code before that fix (false; documented by the C50_prefix_* theorems); theorems quantified
+   over the flags hold for both trees. *)
 From Coq Require Import List NArith Bool.
 Import ListNotations.
 Require Import KV.C50.Model KV.C50.Proofs.
@@ -56,23 +57,23 @@ Definition C50_no_reserved_statement (fixr fixp : bool) : Prop :=
     lookup (s_ents s) i = None -> lookup (s_ents s') i = Some e' ->
     DYN_MIN <= i /\ has_cls K_Builtin e' = false.
 
-(* With the phase-2 guard of /verif/fixes/C50.patch the statement holds in full. *)
+(* The statement holds in full (phase 2 refuses a missing uuid below DYNAMIC_RANGE_MINIMUM_UUID). *)
 Theorem C50_no_reserved_fixed : forall fixp, C50_no_reserved_statement true fixp.
 Proof. intros fixp s r s' i e' H. eapply no_reserved_gen; eauto. Qed.
 
-(* Without it (the code as pinned) it holds for every request that does not itself name a
-   missing uuid below DYNAMIC_RANGE_MINIMUM_UUID (= outside the known class reserved-stub) ... *)
-Theorem C50_no_reserved_partial : forall fixp s r s' i e',
+(* Before the fix it held only for requests that do not themselves name a missing uuid below
+   DYNAMIC_RANGE_MINIMUM_UUID ... *)
+Theorem C50_prefix_no_reserved_partial : forall fixp s r s' i e',
   step false fixp s (OSync r) = (ROk, s') -> known_reserved s (OSync r) = false ->
   lookup (s_ents s) i = None -> lookup (s_ents s') i = Some e' ->
   DYN_MIN <= i /\ has_cls K_Builtin e' = false.
 Proof. intros fixp s r s' i e' H Hk. eapply no_reserved_gen; eauto. Qed.
 
-(* ... and is false in general: a group requested under uuid 5 is created and tagged built-in. *)
+(* ... and was false in general: a group requested under uuid 5 was created and tagged built-in. *)
 Definition refute_reserved_state : st := mkS [] [(7, mkA None [])] 0.
 Definition refute_reserved_req : sreq :=
   mkR IKSynch 7 SRefresh (SActive 1) [mkSE 5 [SCls K_Group] (Some 50) [(A_Name, 50)]] RIgnore.
-Theorem C50_no_reserved_refuted : forall fixp, ~ C50_no_reserved_statement false fixp.
+Theorem C50_prefix_no_reserved_refuted : forall fixp, ~ C50_no_reserved_statement false fixp.
 Proof.
   intros fixp Hs.
   assert (E : exists s', step false fixp refute_reserved_state (OSync refute_reserved_req) = (ROk, s')
@@ -88,19 +89,20 @@ Definition C50_attrs_scoped_statement (fixr fixp : bool) : Prop :=
     lookup (s_ents s) i = Some e -> lookup (s_ents s') i = Some e' -> aget a e <> aget a e' ->
     mem a SYNCABLE = true /\ mem a (yield_of s (r_agr r)) = false.
 
-(* With the phantom-attribute guard of /verif/fixes/C50.patch the statement holds in full. *)
+(* The statement holds in full (a phantom import attribute is sync owned only while neither it
+   nor primary_credential is yielded). *)
 Theorem C50_attrs_scoped_fixed : forall fixr, C50_attrs_scoped_statement fixr true.
 Proof. intros fixr s r s' i e e' a H. eapply attrs_scoped_gen; eauto. Qed.
 
-(* Without it it holds for every request that does not carry password_import while authority
-   over primary_credential / password_import is yielded (= outside the known class phantom-yield) ... *)
-Theorem C50_attrs_scoped_partial : forall fixr s r s' i e e' a,
+(* Before the fix it held only for requests that do not carry password_import while authority over
+   primary_credential / password_import is yielded ... *)
+Theorem C50_prefix_attrs_scoped_partial : forall fixr s r s' i e e' a,
   step fixr false s (OSync r) = (ROk, s') -> known_phantom s (OSync r) = false ->
   lookup (s_ents s) i = Some e -> lookup (s_ents s') i = Some e' -> aget a e <> aget a e' ->
   mem a SYNCABLE = true /\ mem a (yield_of s (r_agr r)) = false.
 Proof. intros fixr s r s' i e e' a H Hk. eapply attrs_scoped_gen; eauto. Qed.
 
-(* ... and is false in general: the yielded primary credential of a synchronised person is replaced. *)
+(* ... and was false in general: the yielded primary credential of a synchronised person was replaced. *)
 Definition refute_phantom_state : st :=
   mkS [(DYN_MIN + 1, mkE true (Some 7) [K_Object; K_SyncObject; K_Account; K_Person] [K_Account; K_Person]
                          (Some 10) true [(A_Name, 10); (A_DisplayName, 1); (A_PrimaryCredential, 3)])]
@@ -109,7 +111,7 @@ Definition refute_phantom_req : sreq :=
   mkR IKSynch 7 (SActive 1) (SActive 2)
       [mkSE (DYN_MIN + 1) [SCls K_Account; SCls K_Person] (Some 10)
             [(A_Name, 10); (A_DisplayName, 1); (A_PasswordImport, 0)]] RIgnore.
-Theorem C50_attrs_scoped_refuted : forall fixr, ~ C50_attrs_scoped_statement fixr false.
+Theorem C50_prefix_attrs_scoped_refuted : forall fixr, ~ C50_attrs_scoped_statement fixr false.
 Proof.
   intros fixr Hs.
   assert (E : exists s' e', step fixr false refute_phantom_state (OSync refute_phantom_req) = (ROk, s')
@@ -126,18 +128,21 @@ Definition C50_full_statement : Prop :=
   C50_no_reserved_statement tree_fixed_reserved tree_fixed_phantom /\
   C50_attrs_scoped_statement tree_fixed_reserved tree_fixed_phantom.
 
-(* Verdict for the current flags of KV.C50.Model: the full statement holds exactly on the tree
-   that contains both guards; on the tree as pinned it is refuted (see the _partial theorems for
-   what still holds there). *)
+(* HEADLINE. On the current tree a synchronisation request never creates an entry in the reserved
+   system uuid range (nor one tagged built-in), and changes only attributes that are
+   synchronisable and not handed over to Kanidm's authority. (The proof also records the verdict
+   for the other flag settings: with either guard missing the statement is refuted.) *)
 Theorem C50_tree_verdict :
   if tree_fixed_reserved && tree_fixed_phantom then C50_full_statement else ~ C50_full_statement.
 Proof.
   unfold C50_full_statement. destruct tree_fixed_reserved, tree_fixed_phantom; cbn [andb].
   - split; [apply C50_no_reserved_fixed | apply C50_attrs_scoped_fixed].
-  - intros [_ H]. exact (C50_attrs_scoped_refuted _ H).
-  - intros [H _]. exact (C50_no_reserved_refuted _ H).
-  - intros [H _]. exact (C50_no_reserved_refuted _ H).
+  - intros [_ H]. exact (C50_prefix_attrs_scoped_refuted _ H).
+  - intros [H _]. exact (C50_prefix_no_reserved_refuted _ H).
+  - intros [H _]. exact (C50_prefix_no_reserved_refuted _ H).
 Qed.
+Theorem C50_full : C50_full_statement.
+Proof. exact C50_tree_verdict. Qed.
 Theorem C50_fixed_full : C50_no_reserved_statement true true /\ C50_attrs_scoped_statement true true.
 Proof. split; [apply C50_no_reserved_fixed | apply C50_attrs_scoped_fixed]. Qed.
 
@@ -213,16 +218,15 @@ Theorem C50_owner_stable : forall fixr fixp ops s i e,
 Proof. exact run_owner_stable. Qed.
 
 (* --- the run-time tie ------------------------------------------------------------------------ *)
-(* The model's own steps satisfy the executable property predicate outside the known classes
-   (both trees; on the fixed tree there is no known class). *)
+(* The model's own steps satisfy the executable property predicate (on the tree before the fix:
+   outside the two defect classes; `known_step true true` is constantly false). *)
 Theorem C50_model_satisfies_pcheck : forall fixr fixp s o r s',
   step fixr fixp s o = (r, s') -> known_step fixr fixp s o r = false -> pcheck_step s o r s' = true.
 Proof. exact step_pcheck. Qed.
 
 (* Whenever the implementation's answer and resulting state agree with the model, the property's
-   executable predicate holds on the implementation's own observations, unless the case lies in
-   a recorded known-finding class. *)
-Theorem C50_agree_implies_property : forall c, agree c = true -> known c = false -> pcheck c = true.
+   executable predicate holds on the implementation's own observations. *)
+Theorem C50_agree_implies_property : forall c, agree c = true -> pcheck c = true.
 Proof. exact agree_pcheck. Qed.
 
 (* What the executable predicate means on an accepted synchronisation request (independent of the
@@ -240,3 +244,8 @@ Theorem C50_pcheck_sound : forall s r s', pcheck_step s (OSync r) ROk s' = true 
                              mem a SYNCABLE = true /\ mem a (yield_of s (r_agr r)) = false)
     end.
 Proof. exact pcheck_sound_sync. Qed.
+
+(* The tree before the fix (both flags false) did not satisfy the full statement. *)
+Theorem C50_prefix_refuted :
+  ~ (C50_no_reserved_statement false false /\ C50_attrs_scoped_statement false false).
+Proof. intros [H _]. exact (C50_prefix_no_reserved_refuted _ H). Qed.
